@@ -13,6 +13,7 @@ func init() { register("C04", checkC04) }
 
 func checkC04(c *Ctx) {
 	p := mustLoad(c, K1)
+	indexLints(c, p, "ecc/*")
 	eff := sharedEffects(p)
 	c.Rule("C04.guard", "GUARD: MultiExp returns a nil error only with len(points) == len(scalars) and a task count that is either defaulted (<= 0) or at most 1024; the affine wrapper and Fold delegate to it and propagate its error", 17*2)
 	c.Rule("C04.sem", "SEMAPHORE-CAPACITY: in _innerMsm the token channel is created with capacity equal to (number of tokens pushed by the initial loop) + (trip count of the chunk loop, which may push one extra token per iteration): with that capacity neither the dispatcher nor a worker returning its token can block on a send, whatever the chunk statistics", 16)
